@@ -36,8 +36,12 @@ CtxZones == {"UTC", "+05:30", "-04:00", "America/New_York"}
 Val(i) == ParseISO(StrSeq[i], -1)
 
 VARIABLES i, j, k, zone
-Init == i \in 1..Len(StrSeq) /\ j \in 1..Len(StrSeq) /\ k = 0 /\ zone \in CtxZones
-Step == k = 0 /\ k' \in 1..Len(StrSeq) /\ UNCHANGED <<i, j, zone>>
+(* pairs: the whole grid; triples (transitivity): every 5th string, which    *)
+(* still has every type, offset and boundary instant                         *)
+Core == {n \in 1..Len(StrSeq) : n % 5 = 1}
+Init == i \in 1..Len(StrSeq) /\ j = 0 /\ k = 0 /\ zone \in CtxZones
+Step == \/ j = 0 /\ j' \in 1..Len(StrSeq) /\ UNCHANGED <<i, k, zone>>
+        \/ j # 0 /\ k = 0 /\ i \in Core /\ j \in Core /\ k' \in Core /\ UNCHANGED <<i, j, zone>>
 
 Cmp(a, b, z) == DTCompare(a, b, TRUE, z)
 RoundTrip(a) == LET r == ParseISO(a.txt, -1) IN r.ok = "y" /\ r.v = a
@@ -61,7 +65,8 @@ TripleLaw(a, b, c, z) ==
         /\ (ab.cmp <= 0 /\ bc.cmp <= 0) => ac.cmp <= 0
         /\ (ab.cmp = 0 /\ bc.cmp = 0) => ac.cmp = 0
 
-Inv == LET a == Val(i)  b == Val(j)
+Inv == j = 0 \/
+       LET a == Val(i)  b == Val(j)
        IN /\ a.ok = "y" /\ b.ok = "y"
           /\ IF k = 0 THEN PairLaw(a.v, b.v, zone)
              ELSE LET c == Val(k) IN c.ok = "y" /\ TripleLaw(a.v, b.v, c.v, zone)
